@@ -95,7 +95,7 @@ TEXT = {
         'design_ref': 'DESIGN.md §4 C02',
     },
     'C19': {
-        'text': 'Partial: Prio2 parameter and packing arithmetic and the query-point exclusion. Verus proves Prio2::new (exact acceptance domain, no overflow), proof_length, the single-use rule, and that choose_eval_at never returns one of the 2N interpolation nodes (r^(2*next_pow2(input_len+1)) != 1 for every PRNG output stream) over the proved FP32::pow contract and the make_field! bodies of FieldPrio2::{pow,one,eq}; FieldPrio2 arithmetic is covered by C09.',
+        'text': 'Partial: Prio2 parameter and packing arithmetic and the query-point exclusion. Verus proves Prio2::new (exact acceptance domain, no overflow), proof_length, the single-use rule, and that choose_eval_at never returns one of the 2N interpolation nodes (r^(2*next_pow2(input_len+1)) != 1 for every PRNG output stream) over the proved FP32::pow contract and the make_field! bodies of FieldPrio2::{pow,one,eq}; FieldPrio2 arithmetic is covered by C09. Kani proves on the real generate_verification_message (dimensions 1 and 2, interpolation as a recording contract stub) which points f, g and h are interpolated through - all 2n of them for h - at which query point and in which order, and that is_valid_share decides (f1+f2)(g1+g2) == h1+h2 on all components.',
         'note': 'The Prio2 message codecs and the wrong-length / wrong-role guards are decided by Kani (bounded lengths). Acceptance of 0/1 vectors and rejection of others (soundness) is not decided. Termination of the rejection loop in choose_eval_at is probabilistic and not proved.',
         'technique': 'function contracts on extracted real code (Verus) + codec/guard contract harnesses on the real code (Kani)',
         'design_ref': 'DESIGN.md §4 C19',
